@@ -74,21 +74,43 @@ AddDotsG(ev, fl, item) ==
   /\ item \notin fl
   /\ \/ item[1] = "su" /\ item[2] \in DOMAIN ev.su /\ ev.su[item[2]].complete /\ SubSeq(item[2][2], 1, 1) # "$"
         /\ PlainFields(ev, item[2])
+        \* cparser.py refuses a partial struct inside a nested anonymous one ("partial but has no C name")
+        /\ \A k2 \in DOMAIN ev.su : ~Queryable(k2) => item[2] \notin NeedsClosure(ev.su, FieldNeeds(ev.su, k2))
      \/ item[1] = "k" /\ item[2] \in DOMAIN ev.kc
 
 (* ------------------------------------------------------------------ layouts in both worlds *)
-OffsetOf(ev, key, i) == IF key[1] = "union" THEN 0 ELSE BitPos(ev, ev.su[key].fields, i) \div 8
+\* byte offset of field i: for a bit-field, of its 4-byte unit
+OffsetOf(ev, key, i) ==
+  IF key[1] = "union" THEN 0
+  ELSE IF ev.su[key].fields[i][3] = Unk THEN BitPos(ev, ev.su[key].fields, i) \div 8
+  ELSE 4 * (BitPos(ev, ev.su[key].fields, i) \div 32)
+
+(* A struct declared with "...;" is partial: its layout is the compiler's.  cparser.py makes a
+   struct that has a *field whose type is a partial struct* partial too
+   (_get_struct_union_enum_type: isinstance(type, model.StructType) and type.partial), and so on. *)
+FlexStep(ev, S) ==
+  S \cup {k \in DOMAIN ev.su : ev.su[k].complete /\ k[1] = "struct" /\
+            \E i \in DOMAIN ev.su[k].fields : ev.su[k].fields[i][2][1] = "struct" /\ ev.su[k].fields[i][2] \in S}
+RECURSIVE FlexClose(_, _)
+FlexClose(ev, S) == IF FlexStep(ev, S) = S THEN S ELSE FlexClose(ev, FlexStep(ev, S))
+EffFlex(ev, fl) == FlexClose(ev, {item[2] : item \in {x \in fl : x[1] = "su" /\ x[2][1] = "struct"}})
+                   \cup {item[2] : item \in {x \in fl : x[1] = "su"}}
+\* the cdef's environment in which every (effectively) flexible aggregate has the compiler's layout
+Eff(ev, c, fl) == [ev EXCEPT !.su = [k \in DOMAIN ev.su |-> IF k \in EffFlex(ev, fl) THEN c.su[k] ELSE ev.su[k]]]
+\* ... and in which `key` itself is laid out from the fields the cdef lists
+EffOwn(ev, c, fl, key) == [ev EXCEPT !.su = [k \in DOMAIN ev.su |->
+                              IF k # key /\ k \in EffFlex(ev, fl) THEN c.su[k] ELSE ev.su[k]]]
 
 \* disagreements between what the cdef implies and what the C compiler says, for struct `key`
-SizeBad(ev, c, key) ==
+SizeBad(ev, c, fl, key) ==
   \E i \in DOMAIN ev.su[key].fields :
      LET f == ev.su[key].fields[i]
-     IN SizeOf(ev, f[2]) # SizeOf(c, c.su[key].fields[FieldIdx(c.su[key].fields, f[1])][2])
-OffsetBad(ev, c, key) ==
+     IN SizeOf(Eff(ev, c, fl), f[2]) # SizeOf(c, c.su[key].fields[FieldIdx(c.su[key].fields, f[1])][2])
+OffsetBad(ev, c, fl, key) ==
   \E i \in DOMAIN ev.su[key].fields :
-     OffsetOf(ev, key, i) # OffsetOf(c, key, FieldIdx(c.su[key].fields, ev.su[key].fields[i][1]))
-TotalBad(ev, c, key) == SizeOf(ev, key) # SizeOf(c, key)
-AlignBad(ev, c, key) == AlignOf(ev, key) # AlignOf(c, key)
+     OffsetOf(EffOwn(ev, c, fl, key), key, i) # OffsetOf(c, key, FieldIdx(c.su[key].fields, ev.su[key].fields[i][1]))
+TotalBad(ev, c, fl, key) == SizeOf(EffOwn(ev, c, fl, key), key) # SizeOf(c, key)
+AlignBad(ev, c, fl, key) == AlignOf(EffOwn(ev, c, fl, key), key) # AlignOf(c, key)
 
 \* the aggregate as the module must show it when it is usable: the cdef's fields with the
 \* compiler's facts
@@ -105,10 +127,11 @@ ApiAggObs(ev, c, key) ==
 \* "ok" | "error" | "any"
 IdealSU(ev, c, fl, key) ==
   IF ~ev.su[key].complete THEN "ok"
-  ELSE IF SizeBad(ev, c, key) THEN "error"
+  ELSE IF SizeBad(ev, c, fl, key) THEN "error"
   ELSE IF <<"su", key>> \in fl THEN "ok"
-  ELSE IF OffsetBad(ev, c, key) \/ TotalBad(ev, c, key) THEN "error"
-  ELSE IF AlignBad(ev, c, key) THEN "any"
+  ELSE IF key \in EffFlex(ev, fl) THEN "any"           \* made partial by a field: the statement is silent
+  ELSE IF OffsetBad(ev, c, fl, key) \/ TotalBad(ev, c, fl, key) THEN "error"
+  ELSE IF AlignBad(ev, c, fl, key) THEN "any"
   ELSE "ok"
 IdealConst(ev, c, fl, name) ==
   IF <<"k", name>> \in fl THEN "ok" ELSE IF ev.kc[name] # c.kc[name] THEN "error" ELSE "ok"
@@ -121,11 +144,11 @@ DependsOnBroken(ev, c, fl, t) == NeedsClosure(ev.su, NeedsNow(t)) \cap BrokenSUs
 (* ------------------------------------------------------------------ the implementation model *)
 ModelSU(ev, c, fl, key) ==
   IF ~ev.su[key].complete THEN "ok"
-  ELSE LET check == <<"su", key>> \notin fl            \* _CFFI_F_CHECK_FIELDS
-       IN IF SizeBad(ev, c, key) /\ (check \/ variant # "nosizecheck")
+  ELSE LET check == key \notin EffFlex(ev, fl)        \* _CFFI_F_CHECK_FIELDS unless tp.partial
+       IN IF SizeBad(ev, c, fl, key) /\ (check \/ variant # "nosizecheck")
           THEN "error"                                 \* do_realize_lazy_struct: always SF_STD_FIELD_POS
-          ELSE IF check /\ (OffsetBad(ev, c, key) \/ (TotalBad(ev, c, key) /\ variant # "nototal")
-                            \/ AlignBad(ev, c, key)) THEN "error"
+          ELSE IF check /\ (OffsetBad(ev, c, fl, key) \/ (TotalBad(ev, c, fl, key) /\ variant # "nototal")
+                            \/ AlignBad(ev, c, fl, key)) THEN "error"
           ELSE "ok"
 ModelConst(ev, c, fl, name) ==         \* _cffi_check_int only with a check_value
   IF <<"k", name>> \in fl \/ variant = "nocheckint" THEN "ok" ELSE IF ev.kc[name] # c.kc[name] THEN "error" ELSE "ok"
